@@ -238,9 +238,9 @@ def check_x25519_derive(rep, facts, dhx, rule='R03.3'):
         skw, pkw = rt[3]
         if skw[0] == 'agg' and pkw[0] == 'agg' and len(skw[3]) == 1 and len(pkw[3]) == 1:
             sk, pk = skw[3][0], pkw[3][0]
-            sk_ok = sk[0] == 'call' and sk[1] == 'core::convert::From::from' and sk[4] and sk[4][2] == 'x25519_dalek::StaticSecret' and \
+            sk_ok = sk[0] == 'call' and sk[1] == 'core::convert::Into::into' and sk[4] and sk[4][4][1:] == ('x25519_dalek::StaticSecret',) and \
                 sk[2][0][0] == 'mem' and len(sk[2][0][3]) == 1 and sk[2][0][3][0][0] == a.term_point(xb)
-            pk_ok = pk[0] == 'call' and pk[1] == 'core::convert::From::from' and pk[4] and pk[4][2] == 'x25519_dalek::PublicKey'
+            pk_ok = pk[0] == 'call' and pk[1] == 'core::convert::Into::into' and pk[4] and pk[4][4][1:] == ('x25519_dalek::PublicKey',)
             if pk_ok:
                 src = a.deref_val(pk[2][0], a.term_point(pk[3]))
                 pk_ok = src == sk or strip_sites(src) == strip_sites(sk)
@@ -326,7 +326,7 @@ def check_nist_derive(rep, facts, spec, dhx, rule='R03.3'):
     okr = False
     if rt[0] == 'agg' and rt[1] == 'tuple' and len(rt[3]) == 2 and fb:
         sk, pk = rt[3]
-        okr = sk[0] == 'field' and sk[2][0] == 'variant' and sk[2][1] == 'Ok' and sk[2][2][0] == 'call' and sk[2][2][3] == fb[0][0] and \
+        okr = sk[0] == 'okval' and sk[1][0] == 'call' and sk[1][3] == fb[0][0] and \
             pk[0] == 'call' and pk[1] == 'dhkex::DhKeyExchange::sk_to_pk' and pk[4] and pk[4][2] == dhx
         if okr:
             src = a.deref_val(pk[2][0], a.term_point(pk[3]))
@@ -358,7 +358,7 @@ def check_sk_to_pk_and_kex(rep, facts, spec, dhx, rule='R03.4'):
             if spec['nist']:
                 ok = v[0] == 'call' and v[1].endswith('SecretKey::public_key') and pp(v[2][0]) == '&*p1.0'
             else:
-                ok = v[0] == 'call' and v[1] == 'core::convert::From::from' and v[4] and v[4][2] == 'x25519_dalek::PublicKey' and pp(v[2][0]) == '&*p1.0'
+                ok = v[0] == 'call' and v[1] == 'core::convert::Into::into' and v[4] and v[4][4][1:] == ('x25519_dalek::PublicKey',) and pp(v[2][0]) == '&*p1.0'
         rep.check(ok, rule, a.body.key, 'pk-of-sk', pp(rt)[:160], 'PublicKey(pk(sk)) through the curve crate', where(a))
     a = get_an(facts, '<%s::KexResult as Serializable>::write_exact' % spec['dh_mod'])
     if a is None:
